@@ -143,6 +143,11 @@ def row_task(task):
         from vlib.harness import describe_exception
 
         et, where, msg = describe_exception(e)
+        if where == "outside-repo":
+            import traceback
+
+            part.inconc("harness error while replaying a move: " + traceback.format_exc()[-800:])
+            return None, part
         return {"exception": [et, where, msg], "start": gen.key_str(f.key())}, part
     part.count("paths", state["paths"])
     part.count("evaluations", state["paths"])
